@@ -45,9 +45,30 @@ fn decl(b: &mut B, els: &[El]) {
 
 /// a small but complete model: `lods` levels of detail, `meshes_per_lod` meshes each
 fn model(v6: bool, lods: u8, meshes: &[MeshSpec], meshes_per_lod: u16, shapes: bool, rng: &mut Rng) -> Seed {
+    model_with_names(v6, lods, meshes, meshes_per_lod, shapes, 0, 0, rng)
+}
+
+/// `filler` extra bytes of one long name at the end of the string block, `extra_materials`
+/// material names that all point at it
+fn model_with_names(
+    v6: bool,
+    lods: u8,
+    meshes: &[MeshSpec],
+    meshes_per_lod: u16,
+    shapes: bool,
+    filler: usize,
+    extra_materials: u16,
+    rng: &mut Rng,
+) -> Seed {
     let mut b = B::new(false);
     let nm = meshes.len() as u16;
-    let strings: &[u8] = b"j_kosi\0/mt_a.mtrl\0atr_x\0shp_a\0\0\0";
+    let base: &[u8] = b"j_kosi\0/mt_a.mtrl\0atr_x\0shp_a\0\0\0";
+    let mut strings_v = base.to_vec();
+    if filler > 0 {
+        strings_v.extend(std::iter::repeat(0x41u8).take(filler));
+        strings_v.push(0);
+    }
+    let strings: &[u8] = &strings_v;
     // file header (offsets patched at the end)
     b.u32(if v6 { 0x1000006 } else { 0x1000005 }).u32(0).u32(0).u16(nm).u16(1);
     let p_vertex_offsets = b.pos();
@@ -59,9 +80,9 @@ fn model(v6: bool, lods: u8, meshes: &[MeshSpec], meshes_per_lod: u16, shapes: b
     for m in meshes {
         decl(&mut b, &m.decl);
     }
-    b.u16(4).zeros(2).u32(strings.len() as u32).raw(strings, true).bound();
+    b.u16(4).zeros(2).u32(strings.len() as u32).raw(strings, filler == 0).bound();
     let total_sub: u16 = meshes.iter().map(|m| m.submeshes).sum();
-    b.f32(1.0).u16(nm).u16(1).u16(total_sub).u16(1).u16(1).u16(1);
+    b.f32(1.0).u16(nm).u16(1).u16(total_sub).u16(1 + extra_materials).u16(1).u16(1);
     if shapes {
         b.u16(1).u16(1).u16(2);
     } else {
@@ -109,6 +130,9 @@ fn model(v6: bool, lods: u8, meshes: &[MeshSpec], meshes_per_lod: u16, shapes: b
     b.bound();
     b.u32(0).u32(3).u16(0).u16(0); // terrain shadow submesh
     b.u32(7); // material name
+    for _ in 0..extra_materials {
+        b.u32(base.len() as u32);
+    }
     b.u32(0); // bone name
     b.bound();
     if v6 {
@@ -390,8 +414,30 @@ fn multi(seed: &Seed, rng: &mut Rng, n: usize, out: &mut dyn Write) {
     }
 }
 
+/// many vertices that all live at the same address (stride 0), referenced from every level of detail
+fn amplified(vertex_count: u16, lods: u8, shapes: bool, rng: &mut Rng) -> Seed {
+    let z = |mut m: MeshSpec| {
+        m.vertex_count = vertex_count;
+        m.strides = [0, 0, 0];
+        m
+    };
+    let mut s = model(true, lods, &[z(mesh_a()), z(mesh_a()), z(mesh_a())], 1, shapes, rng);
+    // room for the element offsets of one vertex
+    s.bytes.extend_from_slice(&[0u8; 64]);
+    s
+}
+
 pub fn generate(thorough: bool, seed: u64, out: &mut dyn Write) {
     let mut rng = Rng::new(seed, "C18-mdl");
+    for (vc, lods, shapes) in [(0xFFFFu16, 1u8, false), (0xFFFF, 2, false), (0xFFFF, 3, false), (0xFFFF, 3, true), (0x8000, 3, true)] {
+        let s = amplified(vc, lods, shapes, &mut rng);
+        emit(out, "mdl", &s.bytes, "");
+    }
+    // many names that share one long string
+    for (filler, extra) in [(60000usize, 2000u16), (60000, 100), (1000, 2000)] {
+        let s = model_with_names(false, 1, &[mesh_a(), mesh_b()], 2, true, filler, extra, &mut rng);
+        emit(out, "mdl", &s.bytes, "");
+    }
     for s in mdl_seeds(&mut rng) {
         mutate(&s, &mut rng, thorough, out);
         multi(&s, &mut rng, if thorough { 6000 } else { 600 }, out);
